@@ -188,15 +188,29 @@ def qlist(xs):
 
 # ------------------------------------------------------------------------------------------------ observation (histogram screen)
 def observe_hist(sp, parts):
+    import cheetah
     scr = mk_screen(sp)
     beam = mk_pbeam(parts)
     obs = {}
+    if sp.get("pretrack"):
+        # an earlier beam was recorded and read: the next reading must show the next beam, not a cached image
+        scr.track(mk_pbeam([dict(x=sp["dx"] + sp["px"] / 4, px=0.0, y=sp["py"] / 4, py=0.0, q=5.0, s=1.0)]))
+        _ = scr.reading
     obs["eff"] = [int(v) for v in scr.effective_resolution]
     obs["ex"], obs["ey"] = [t.tolist() for t in scr.pixel_bin_edges]
     obs["cx"], obs["cy"] = [t.tolist() for t in scr.pixel_bin_centers]
     obs["ext"] = scr.extent.tolist()
-    out = scr.track(beam)
+    if sp.get("via_segment"):
+        # the observation point named by the property: Screen.reading / BPM.reading after Segment.track
+        bpm = cheetah.BPM(is_active=True, name="bpm_after")
+        out = cheetah.Segment([cheetah.Marker(name="m0"), scr, bpm]).track(beam)
+        obs["bpm_after"] = [float(v) for v in bpm.reading]
+        obs["bpm_expected"] = [float(out.mu_x), float(out.mu_y)]
+    else:
+        out = scr.track(beam)
     rb = scr.get_read_beam()
+    if sp.get("pretrack") and not sp["active"]:
+        rb = None        # (an inactive screen keeps nothing; not reachable: pretrack is only generated for active screens)
     obs["read"] = None if rb is None else beam_rows(rb)
     obs["img"] = scr.reading.tolist()
     obs["out"] = beam_rows(out)
@@ -254,6 +268,8 @@ def oracle_hist(sp, parts, obs):
         bad.append(("outgoing_beam", {"expected": want[:3], "observed": obs["out"][:3]}, False))
     if obs["in_after"] != strip(parts):
         bad.append(("incoming_modified", "Screen.track modified the incoming beam in place", False))
+    if "bpm_after" in obs and obs["bpm_after"] != obs["bpm_expected"] and not any(math.isnan(v) for v in obs["bpm_expected"]):
+        bad.append(("bpm_after_screen", {"reading": obs["bpm_after"], "mu_of_outgoing_beam": obs["bpm_expected"]}, False))
     return bad
 
 
@@ -480,6 +496,8 @@ def main(tier, replay=None):
             sp["active"] = False
         elif mode < 0.3:
             sp["blocking"] = True
+        sp["via_segment"] = rng.random() < 0.3
+        sp["pretrack"] = sp["active"] and rng.random() < 0.25
         single = rng.random() < 0.35
         parts = gen_particles(rng, sp, 1 if single else rng.randrange(2, 9))
         inp = dict(screen=sp, particles=parts)
